@@ -33,7 +33,8 @@
 #include "signals.h"            /* halt() */
 #include "verif.h"
 #ifdef KJN_LBZIP2_VERIF
-#include <sys/resource.h>      /* getrusage() */
+#include <stdio.h>              /* fopen() */
+#include <sys/resource.h>       /* getrusage() */
 #endif
 
 
@@ -591,13 +592,24 @@ primary_thread(void)
 #ifdef KJN_LBZIP2_VERIF
   {
     struct rusage ru;
+    long hwm = -1;
+    FILE *sf = fopen("/proc/self/status", "r");
     getrusage(RUSAGE_SELF, &ru);
+    /* ru_maxrss survives execve() on Linux (it starts from the parent's RSS);
+       VmHWM belongs to this program's own address space. */
+    if (sf != NULL) {
+      char ln[128];
+      while (fgets(ln, sizeof(ln), sf) != NULL)
+        if (sscanf(ln, "VmHWM: %ld", &hwm) == 1)
+          break;
+      fclose(sf);
+    }
     VERIF_EV("\"e\":\"Uninit\",\"eof\":%d,\"wu\":%u,\"os\":%u,\"is\":%u,"
              "\"live\":[%d,%d,%d,%d,%d],\"peak\":[%d,%d,%d,%d,%d],"
-             "\"rss\":%ld", (int)eof, work_units, out_slots, in_slots,
+             "\"rss\":%ld,\"hwm\":%ld", (int)eof, work_units, out_slots, in_slots,
              verif_live(0), verif_live(1), verif_live(2), verif_live(3),
              verif_live(4), verif_peak(0), verif_peak(1), verif_peak(2),
-             verif_peak(3), verif_peak(4), (long)ru.ru_maxrss);
+             verif_peak(3), verif_peak(4), (long)ru.ru_maxrss, hwm);
   }
 #endif
 
